@@ -306,6 +306,13 @@ func (c *Ctx) blockingDiscipline(table []bareOp, minSelects int) {
 				continue
 			}
 		}
+		if t.class == "buffered-once" && countedElsewhere[t.fn+"|"+t.key] != "" && len(at) >= t.n {
+			// how many sends there may be per request is counted path by
+			// path by the supporting rule; a further site (a refusal sent
+			// back instead of the answer) is that rule's business
+			c.pass(construct, at[0], fmt.Sprintf("%d site(s), class %s: %s; at most one per request: %s", len(at), t.class, t.why, countedElsewhere[t.fn+"|"+t.key]), at...)
+			continue
+		}
 		if len(at) > t.n {
 			c.fail(construct, at[0], fmt.Sprintf("%d bare %s site(s) on %s in %s, the table knows %d (%s): a new unconditional %s was added", len(at), k.kind, k.key, k.fn, t.n, t.class, k.kind), at...)
 			continue
@@ -589,4 +596,11 @@ func (c *Ctx) autoBareSend(s blockingSite) (string, string, bool) {
 		return "", "", false
 	}
 	return "one-reply-per-request", fmt.Sprintf("every channel stored into %s is made with constant capacity >= 1 (%d allocation(s)); this is the only send on it in the module and it is made once per received message", s.key, nMk), true
+}
+
+// countedElsewhere: bare-send rows whose "one send per request" is decided,
+// on every path through one round of the owner's loop, by another rule.
+var countedElsewhere = map[string]string{
+	"(*pushtx.Broadcaster).broadcastHandler|field:broadcastReq.errChan": "C15.G1 (per iteration: one reply iff one Broadcast call)",
+	"(*query.peerWorkManager).workDispatcher|field:batchProgress.errChan": "C12.X1 (a verdict exactly when the batch is deleted)",
 }
